@@ -223,6 +223,12 @@ impl<T: Socket + ?Sized> Worker<T> {
                             if window.is_full() {
                                 break;
                             }
+                        } else {
+                            // Out of sequence (e.g. our ACK was lost and the peer
+                            // retransmitted): acknowledge the last block received
+                            // in order so that the peer can resynchronize.
+                            window.empty()?;
+                            self.send_packet(&Packet::Ack(block_number))?;
                         }
                     }
                     Ok(Packet::Error { code, msg }) => {
